@@ -104,7 +104,7 @@ func (d *DB) DoConn(cmd [][]byte, conn net.Conn) (res Result) {
 			res.Panic = fmt.Sprintf("%v\n%s", p, debug.Stack())
 		}
 	}()
-	var r resp.RedisData = d.M.ExecCommand(d.Ctx, cmd, conn)
+	var r resp.RedisData = d.M.ExecCommand(d.Ctx, wireShaped(cmd), conn)
 	if isNil(r) {
 		res.NilRes = true
 		res.Raw = resp.MakeErrorData("unknown error").ToBytes()
@@ -113,6 +113,21 @@ func (d *DB) DoConn(cmd [][]byte, conn net.Conn) (res Result) {
 	}
 	res.Val, res.DecErr = respx.DecodeExactlyOne(res.Raw)
 	return res
+}
+
+// wireShaped copies the argument vector into slices shaped like the ones the RESP parser hands to
+// the executors: each argument is the first len bytes of a buffer that also holds the trailing CR LF
+// (cap = len+2). Executors that extend or reuse a stored slice in place see the same spare bytes as
+// they would behind a real connection, and never alias the caller's memory.
+func wireShaped(cmd [][]byte) [][]byte {
+	out := make([][]byte, len(cmd))
+	for i, a := range cmd {
+		buf := make([]byte, len(a)+2)
+		copy(buf, a)
+		buf[len(a)], buf[len(a)+1] = '\r', '\n'
+		out[i] = buf[:len(a)]
+	}
+	return out
 }
 
 func isNil(r resp.RedisData) bool {
